@@ -8,7 +8,8 @@ mkdir -p build evidence/replay
 (cd translator && go build -o ../build/translator-setup . )
 ./build/translator-setup -repo "${VERIF_REPO:-/repo}" -out lean/ComposeVerif/Gen
 # 2. Lean: every model, spec, lemma and property theorem, plus the line-protocol driver
-(cd lean && lake build ComposeVerif driver ComposeVerif.Lemmas.AuditCmd)
+MODS=$(cd lean && ls ComposeVerif/Props/*.lean ComposeVerif/Neg/*.lean 2>/dev/null | sed 's/\.lean$//; s|/|.|g')
+(cd lean && lake build ComposeVerif driver ComposeVerif.Lemmas.AuditCmd $MODS)
 # 3. harness against the tree as it is now (checks rebuild it on every run anyway)
 cp "${VERIF_REPO:-/repo}/go.sum" harness/go.sum
 (cd harness && go build -tags verif -o ../build/harness-setup . )
